@@ -252,6 +252,8 @@ func c13Class(c client.Condition) string {
 // client restarted after its configuration changed), and the rule without conditions is included.
 func c13PointsBody(t *testing.T, nBatches int, twoPoint bool, storedFlags ...bool) mc.Body {
 	flags := len(storedFlags) > 0 && storedFlags[0]
+	// third optional flag: configuration updates at run time (single-condition rules only)
+	cfgUpd := len(storedFlags) > 1 && storedFlags[1]
 	conds := c13PointConds()
 	// rule configurations: every single condition; pairs over a reduced set
 	type cfg struct{ idx []int }
@@ -272,6 +274,9 @@ func c13PointsBody(t *testing.T, nBatches int, twoPoint bool, storedFlags ...boo
 	}
 	if flags {
 		cfgs = append(cfgs, cfg{nil})
+	}
+	if cfgUpd {
+		cfgs = cfgs[:len(conds)]
 	}
 	// point alphabet
 	var pts []struct {
@@ -328,9 +333,29 @@ func c13PointsBody(t *testing.T, nBatches int, twoPoint bool, storedFlags ...boo
 			g := c13Start(rule)
 			x.Logf("rule: %s (stored flags: rule %v, conditions %v)", strings.Join(names, " AND "), ruleActive, condActive)
 			for b := 0; b < nBatches; b++ {
-				k := x.Choose(len(pts), "point")
-				batch := data.Points{pts[k].p}
-				node := pts[k].node
+				nChoices := len(pts)
+				if cfgUpd {
+					nChoices += 2
+				}
+				k := x.Choose(nChoices, "point")
+				var batch data.Points
+				var node string
+				if k >= len(pts) {
+					// the condition's comparison value is changed while the rule runs (what the client manager does with
+					// a point written to the condition node); the rule then evaluates a trigger point of its own
+					nv := []float64{4.5, 5.5}[k-len(pts)]
+					cs[0].Value = nv
+					g.pubs = nil
+					g.rc.Points("cond0", []data.Point{{Type: data.PointTypeValue, Value: nv, Time: time.Now()}})
+					synctest.Wait()
+					x.Step(1)
+					x.Logf("comparison value of the condition set to %v", nv)
+					batch = data.Points{{Type: data.PointTypeTrigger, Time: time.Now()}}
+					node = "rule1"
+				} else {
+					batch = data.Points{pts[k].p}
+					node = pts[k].node
+				}
 				if twoPoint {
 					if k2 := x.Choose(len(pts)+1, "second point"); k2 > 0 && pts[k2-1].node == node {
 						batch = append(batch, pts[k2-1].p)
@@ -339,15 +364,17 @@ func c13PointsBody(t *testing.T, nBatches int, twoPoint bool, storedFlags ...boo
 				for i := range batch {
 					batch[i].Time = time.Now()
 				}
-				g.pubs = nil
-				d, _ := batch.ToPb()
-				if err := g.nc.Publish("up.P."+node, d); err != nil {
-					out = mc.Outcome{Violation: "HARNESS: publish: " + err.Error(), Key: "harness"}
-					return
+				if k < len(pts) {
+					g.pubs = nil
+					d, _ := batch.ToPb()
+					if err := g.nc.Publish("up.P."+node, d); err != nil {
+						out = mc.Outcome{Violation: "HARNESS: publish: " + err.Error(), Key: "harness"}
+						return
+					}
+					synctest.Wait()
+					x.Step(1)
+					x.Logf("batch from %s: %v", node, strings.TrimSpace(batch.String()))
 				}
-				synctest.Wait()
-				x.Step(1)
-				x.Logf("batch from %s: %v", node, strings.TrimSpace(batch.String()))
 				// reference
 				newCond := append([]bool{}, condActive...)
 				for _, p := range batch {
@@ -365,6 +392,21 @@ func c13PointsBody(t *testing.T, nBatches int, twoPoint bool, storedFlags ...boo
 				pubs := g.pubs
 				if bad {
 					pubs = c13DropBad(pubs)
+				}
+				if k >= len(pts) {
+					// after a configuration update the rule re-runs the action list of its current state whether or not
+					// the state changed (the statement neither demands nor forbids that): only the condition and rule
+					// flags are compared for this step
+					keep := func(ps []c13Pub) []c13Pub {
+						var o []c13Pub
+						for _, q := range ps {
+							if strings.HasPrefix(q.subject, "p.cond") || q.subject == "p.rule1" {
+								o = append(o, q)
+							}
+						}
+						return o
+					}
+					pubs, exp = keep(pubs), keep(exp)
 				}
 				got, want := sortedPubs(c13Settle(pubs, prevCond)), sortedPubs(exp)
 				if strings.Join(got, "\n") != strings.Join(want, "\n") {
@@ -545,6 +587,9 @@ func TestC13(t *testing.T) {
 		nb2 := 1 // (two batches of up to two points would be 17 M sequences per rule configuration)
 		r.Explore(mc.Config{Name: fmt.Sprintf("point-conditions-two-point-batches-b%d", nb2), Serial: true, SplitDepth: 2,
 			Rule: fmt.Sprintf("same rule configurations x %d batch(es) of 1 or 2 points from one node (all ordered pairs of the 64-point alphabet): the latest matching point of a batch decides, whatever the earlier ones did", nb2)}, c13PointsBody(t, nb2, true))
+		r.Explore(mc.Config{Name: "point-conditions-config-updates-b2", Serial: true, SplitDepth: 2,
+			Rule: "each of the 72 single point conditions x all sequences of 2 steps over the 64-point alphabet plus {the condition's comparison value set to 4.5, to 5.5 while the rule runs}: after an update the rule evaluates a trigger point of its own and later points are compared with the new value"},
+			c13PointsBody(t, 2, false, false, true))
 		r.Explore(mc.Config{Name: "point-conditions-stored-flags-b1", Serial: true, SplitDepth: 2,
 			Rule: "same rule configurations plus the rule without conditions, started with every combination of stored `active` flags of the rule and of each condition (a rule client restarted after its configuration changed: the stored rule flag may disagree with the conditions), with and without a misconfigured action in front of each action list (set-value without point type, unknown action kind: the well-formed actions behind it must still run) x one single-point batch: after the batch the rule is active exactly when all conditions are, and the action list ran iff the rule's state changed"},
 			c13PointsBody(t, 1, false, true))
@@ -561,6 +606,7 @@ func init() {
 	bodies["C13/point-conditions-b3"] = func(t *testing.T) mc.Body { return c13PointsBody(t, 3, false) }
 	bodies["C13/point-conditions-two-point-batches-b1"] = func(t *testing.T) mc.Body { return c13PointsBody(t, 1, true) }
 	bodies["C13/point-conditions-two-point-batches-b2"] = func(t *testing.T) mc.Body { return c13PointsBody(t, 2, true) }
+	bodies["C13/point-conditions-config-updates-b2"] = func(t *testing.T) mc.Body { return c13PointsBody(t, 2, false, false, true) }
 	bodies["C13/point-conditions-stored-flags-b1"] = func(t *testing.T) mc.Body { return c13PointsBody(t, 1, false, true) }
 	bodies["C13/schedule-conditions-s4"] = func(t *testing.T) mc.Body { return c13SchedBody(t, 4) }
 	bodies["C13/schedule-conditions-s6"] = func(t *testing.T) mc.Body { return c13SchedBody(t, 6) }
